@@ -216,6 +216,7 @@ class Sys:
             out.append(("attr_link",))
             out.append(("attr_tuple_cycle",))
             out.append(("attr_shared_empty",))
+            out.append(("attr_peer_sets",))
         return out
 
     def apply(self, w, op):
@@ -251,6 +252,14 @@ class Sys:
             w.v[0].d2 = d
             w.v[0].st = st
             w.v[1].st = st
+            return ("ret", None)
+        if k == "attr_peer_sets":
+            # a set and a frozenset of vertices that those vertices (and others) point back to
+            peers = {w.v[1]}
+            team = frozenset([w.v[1]])
+            for v in w.v[:2]:
+                v.peers = peers
+                v.team = team
             return ("ret", None)
         if k == "attr_tuple_cycle":
             # a tuple that takes part in a cycle through a mutable: l = []; t = (l,); l.append(t)
@@ -299,6 +308,8 @@ def attr_kinds(w):
             kinds.add("tuple-cycle")
         if "e" in d:
             kinds.add("shared-empty")
+        if "peers" in d:
+            kinds.add("set-and-frozenset-of-vertices-in-a-cycle")
     if any("peer" in vars(l) for l in w.l):
         kinds.add("link-attr")
     return "+".join(sorted(kinds)) or "none"
